@@ -163,6 +163,7 @@ pub fn run(script: &[Line], prefix: &[usize], horizon: usize) -> Exec {
     let mut outside_marks = 0usize;
     let mut idle_polls = 0usize;
     let mut asleep_polls = 0usize;
+    let mut outside_waits = 0usize;
     loop {
         let mut g = lock();
         // wait for quiescence: nobody holds the baton, no thread about to be born, everyone parked or finished
@@ -265,6 +266,15 @@ pub fn run(script: &[Line], prefix: &[usize], horizon: usize) -> Exec {
             unwinding = true;
         }
         let parked = |s: &Sched| -> String { s.threads.iter().filter(|t| !t.finished).map(|t| format!("{}@{}", t.name, t.park.as_ref().map(|p| p.1).unwrap_or(if t.outside { "<blocked outside the schedule points>" } else { "?" }))).collect::<Vec<_>>().join(", ") };
+        if enabled.is_empty() && s.threads.iter().any(|t| t.outside && !t.finished && t.park.is_none()) && outside_waits < 60 {
+            // the only thread(s) that could still act are blocked outside the schedule points: what they wait for may just
+            // have happened (a joined thread has ended). Give them time to come back before calling it a deadlock.
+            outside_waits += 1;
+            drop(g);
+            std::thread::sleep(std::time::Duration::from_millis(50));
+            continue;
+        }
+        outside_waits = 0;
         if enabled.is_empty() {
             if !unwinding {
                 verdict.get_or_insert(format!("nobody can make progress: the GUI is still waiting (next line #{} {:?}) while the engine threads are blocked: [{}]", next_line, script.get(next_line).map(|l| l.text.as_str()).unwrap_or("<EOF>"), parked(s)));
